@@ -664,6 +664,12 @@ func (nfs *Nfs) NFSPROC3_RENAME(args nfstypes.RENAME3args) nfstypes.RENAME3res {
 			}
 			dipfrom = inodes[0]
 			dipto = inodes[1]
+			if dipfrom.Gen != fromh.Gen || dipto.Gen != toh.Gen {
+				// the inode number was reused; the handle names a removed object
+				errRet(op, &reply.Status, nfstypes.NFS3ERR_STALE)
+				done = true
+				break
+			}
 		}
 
 		util.DPrintf(3, "from %v to %v\n", dipfrom, dipto)
